@@ -344,6 +344,28 @@ def fn_spans(text):
     return spans
 
 
+def enclosing_type(text, idx):
+    """Name of the type whose impl block contains position idx ('' for a free function)."""
+    best = ''
+    for m in re.finditer(r'^[ \t]*impl\b[^{;]*\{', text, re.M):
+        if m.start() > idx:
+            break
+        ob = m.end() - 1
+        try:
+            cb = rsx.match_brace(text, ob)
+        except Exception:
+            continue
+        if ob < idx < cb:
+            hdr = re.sub(r'\s+', ' ', m.group(0)[:-1]).strip()
+            hdr = re.sub(r'^impl\s*(<[^>]*(?:<[^>]*>[^>]*)*>)?\s*', '', hdr)
+            hdr = hdr.split(' where ')[0]
+            if ' for ' in hdr:
+                hdr = hdr.split(' for ', 1)[1]
+            mm = re.match(r'(?:\w+::)*(\w+)', hdr.strip())
+            best = mm.group(1) if mm else ''
+    return best
+
+
 def precheck(texts, unit_dir, max_rounds=4):
     """Triage of tool limits before any obligation is run: `verus --no-verify` on the base text; when Verus rejects the text
     because one exec function uses a construct outside its subset (an unsupported std function, float `%`, ...), that function
@@ -380,7 +402,8 @@ def precheck(texts, unit_dir, max_rounds=4):
             pos = t.index(first_line) if t.count(first_line) == 1 else idx
             new[k_] = t[:pos] + '    #[verifier::external_body] /*precheck: outside the verifier subset*/\n' + t[pos:]
         texts = new
-        excluded[name] = msg
+        ty = enclosing_type(texts['base'], idx)
+        excluded[(ty + '::' + name) if ty else name] = msg
     return texts, excluded
 
 
